@@ -236,6 +236,8 @@ where
                     let r = G::ScalarField::rand(rng_inner);
                     #[cfg(feature = "parallel")]
                     let r = G::ScalarField::rand(&mut rand::thread_rng());
+                    #[cfg(all(feature = "parallel", pc_verif))]
+                    let r = crate::verif_hooks::hyrax_blinder().unwrap_or(r);
                     let c = (Self::pedersen_commit(&ck.com_key, row) + ck.h * r).into();
                     (c, r)
                 })
